@@ -147,14 +147,56 @@ Proof. unfold topic_pub. split_ifs. rewrite andb_false_r in *. discriminate. Qed
 Lemma topic_get_safe st ti u m : is_panic (topic_get all_repairs st ti u m) = false.
 Proof. unfold topic_get, original_panics. simpl. rewrite !andb_false_r. reflexivity. Qed.
 
-Lemma topic_set_safe c st m : is_panic (topic_set all_repairs c st m) = false.
-Proof. unfold topic_set. simpl. rewrite !andb_false_r. reflexivity. Qed.
+(* the default-access table of the code as it is has a case for each of the five categories *)
+Lemma access_for_repaired c : exists x, access_for all_repairs c = Some x.
+Proof. destruct c; vm_compute; eexists; reflexivity. Qed.
+
+Lemma after_access_for_repaired c k : after_access_for all_repairs c k = k.
+Proof. unfold after_access_for. destruct (access_for_repaired c) as [x ->]. reflexivity. Qed.
+
+Lemma this_user_sub_safe st ti u m : is_panic (this_user_sub all_repairs st ti u m) = false.
+Proof.
+  unfold this_user_sub. rewrite !after_access_for_repaired.
+  destruct (o_reject st); [reflexivity|]. destruct (o_store_err st); [reflexivity|].
+  destruct (find_pud u (t_peruser ti)) as [p|]; [destruct (pu_deleted p)|]; simpl.
+  - destruct (t_cat ti); try reflexivity; destruct (is_channel (m_topic m)); reflexivity.
+  - destruct (m_set_mode m); [reflexivity|]. destruct (negb (pu_want_joiner p)); reflexivity.
+  - destruct (t_cat ti); try reflexivity; destruct (is_channel (m_topic m)); reflexivity.
+Qed.
+
+Lemma another_user_sub_safe st ti u tg m : is_panic (another_user_sub all_repairs st ti u tg m) = false.
+Proof.
+  unfold another_user_sub. rewrite !after_access_for_repaired.
+  destruct (find_pud u (t_peruser ti)) as [h|]; [|reflexivity].
+  destruct (negb (pu_sharer h)); [reflexivity|]. destruct (is_channel (m_topic m)); [reflexivity|].
+  destruct (o_reject st); [reflexivity|].
+  match goal with |- context [if ?c then _ else _] => destruct c end; destruct (o_store_err st); reflexivity.
+Qed.
+
+Lemma reply_set_sub_safe st ti u m : is_panic (reply_set_sub all_repairs st ti u m) = false.
+Proof.
+  unfold reply_set_sub. destruct (negb (is_empty (m_set_user m)) && (m_set_user_uid m =? 0)); [reflexivity|].
+  match goal with |- context [if ?c then _ else _] => destruct c end; [apply this_user_sub_safe|apply another_user_sub_safe].
+Qed.
+
+Lemma topic_set_safe c st ti u m : is_panic (topic_set all_repairs c st ti u m) = false.
+Proof.
+  unfold topic_set. simpl. rewrite !andb_false_r. destruct (m_set_sub m); [|reflexivity].
+  pose proof (reply_set_sub_safe st ti u m) as H. destruct (reply_set_sub all_repairs st ti u m); [| |discriminate H];
+    destruct (m_set_desc m); reflexivity.
+Qed.
+
+Lemma topic_reg_safe st ti u m : is_panic (topic_reg all_repairs st ti u m) = false.
+Proof. apply this_user_sub_safe. Qed.
 
 Lemma topic_init_safe c st m : is_panic (topic_init all_repairs c st m) = false.
 Proof. unfold topic_init. simpl. rewrite !andb_false_r. split_ifs. Qed.
 
-Lemma hub_join_safe c st name m : is_panic (hub_join all_repairs c st name m) = false.
-Proof. unfold hub_join. destruct (find_topic name (w_loaded st)); [split_ifs|apply topic_init_safe]. Qed.
+Lemma hub_join_safe c st u name m : is_panic (hub_join all_repairs c st u name m) = false.
+Proof.
+  unfold hub_join. destruct (find_topic name (w_loaded st)); [|apply topic_init_safe].
+  destruct (t_inactive t); [reflexivity|]. destruct (o_queue_full st); [reflexivity|apply topic_reg_safe].
+Qed.
 
 Lemma h_acc_safe c st m : is_panic (h_acc all_repairs c st m) = false.
 Proof. unfold h_acc. simpl. rewrite !andb_false_r. split_ifs. Qed.
@@ -188,7 +230,7 @@ Proof.
   intros Hwf. unfold h_set. destruct (expand u m) eqn:He; [reflexivity|].
   destruct (negb (m_set_desc m || m_set_sub m || m_set_tags m || m_set_cred m)); [reflexivity|].
   destruct (attached st name).
-  - destruct (o_queue_full st); [reflexivity|apply topic_set_safe].
+  - destruct (o_queue_full st); [reflexivity|]. destruct (find_topic name (w_loaded st)); [apply topic_set_safe|reflexivity].
   - destruct (m_set_tags m || m_set_cred m); [reflexivity|]. destruct (o_queue_full st); [reflexivity|].
     now apply offline_set_sub_safe.
 Qed.
@@ -307,29 +349,110 @@ Lemma del_trigger st u m :
      end = true.
 Proof. unfold h_del, topic_unreg. intros H. explore H. all: fin. Qed.
 
+(* the default-access site of the code before /repo f52b053 *)
+Lemma after_access_for_panics c k : is_panic k = false ->
+  is_panic (after_access_for no_repairs c k) = defacs_missing c.
+Proof. intros Hk. unfold after_access_for, defacs_missing. destruct (access_for no_repairs c); [exact Hk|reflexivity]. Qed.
+
+Lemma this_trigger st ti u m :
+  is_panic (this_user_sub no_repairs st ti u m) = true -> this_reaches st ti u m = true.
+Proof.
+  unfold this_user_sub, this_reaches. intros H.
+  destruct (o_reject st); [discriminate H|]. destruct (o_store_err st); [discriminate H|].
+  destruct (find_pud u (t_peruser ti)) as [p|].
+  - destruct (pu_deleted p).
+    + destruct (t_cat ti); simpl in H; try discriminate H; destruct (is_channel (m_topic m)); discriminate H.
+    + simpl in H |- *. destruct (m_set_mode m); [discriminate H|]. simpl.
+      destruct (negb (pu_want_joiner p)); [|discriminate H]. simpl.
+      rewrite after_access_for_panics in H by reflexivity. exact H.
+  - destruct (t_cat ti); simpl in H; try discriminate H; destruct (is_channel (m_topic m)); discriminate H.
+Qed.
+
+Lemma another_trigger st ti u tg m :
+  is_panic (another_user_sub no_repairs st ti u tg m) = true -> another_reaches st ti u tg m = true.
+Proof.
+  unfold another_user_sub, another_reaches. intros H.
+  destruct (find_pud u (t_peruser ti)) as [h|]; [|discriminate H].
+  destruct (pu_sharer h); [|discriminate H]. simpl in H |- *.
+  destruct (is_channel (m_topic m)); [discriminate H|]. destruct (o_reject st); [discriminate H|]. simpl.
+  destruct (match find_pud tg (t_peruser ti) with Some p => pu_deleted p | None => true end); simpl in H |- *.
+  - destruct (m_set_mode m); simpl in H |- *.
+    + destruct (o_store_err st); discriminate H.
+    + rewrite after_access_for_panics in H by (destruct (o_store_err st); reflexivity). exact H.
+  - destruct (o_store_err st); discriminate H.
+Qed.
+
+Lemma set_sub_trigger st ti u m :
+  is_panic (reply_set_sub no_repairs st ti u m) = true -> set_sub_reaches st ti u m = true.
+Proof.
+  unfold reply_set_sub, set_sub_reaches. intros H.
+  destruct (negb (is_empty (m_set_user m)) && (m_set_user_uid m =? 0)); [discriminate H|]. simpl.
+  destruct ((if m_set_user_uid m =? 0 then u else m_set_user_uid m) =? u) eqn:E.
+  - now apply this_trigger.
+  - destruct (m_set_user_uid m =? 0) eqn:Z; [rewrite N.eqb_refl in E; discriminate E|]. now apply another_trigger.
+Qed.
+
+Definition sub_name_of (st : state) (u : N) (m : msg) : option str :=
+  if has_prefix s_new (m_topic m) || has_prefix s_nch (m_topic m) then Some (s_grp ++ [o_fresh st])
+  else match expand u m with ExpOk n => Some n | ExpErr _ => None end.
+
 Lemma sub_trigger c st u m :
   is_panic (h_subscribe no_repairs c st u m) = true ->
-  m_attachments m && negb (media_configured c) && (has_prefix s_new (m_topic m) || has_prefix s_nch (m_topic m))
-  && negb (o_reject st) && negb (o_queue_full st) && negb (attached st (s_grp ++ [o_fresh st]))
-  && match find_topic (s_grp ++ [o_fresh st]) (w_loaded st) with Some _ => false | None => true end = true.
+  (m_attachments m && negb (media_configured c) && (has_prefix s_new (m_topic m) || has_prefix s_nch (m_topic m))
+   && negb (o_reject st) && negb (o_queue_full st) && negb (attached st (s_grp ++ [o_fresh st]))
+   && match find_topic (s_grp ++ [o_fresh st]) (w_loaded st) with Some _ => false | None => true end)
+  || (negb (o_queue_full st)
+      && match sub_name_of st u m with
+         | Some n => negb (attached st n)
+                     && match find_topic n (w_loaded st) with
+                        | Some ti => negb (t_inactive ti) && this_reaches st ti u m
+                        | None => false
+                        end
+         | None => false
+         end) = true.
 Proof.
-  unfold h_subscribe, hub_join, topic_init. intros H.
-  destruct (has_prefix s_new (m_topic m) || has_prefix s_nch (m_topic m)) eqn:P.
-  - explore H. all: fin.
-  - explore H. all: atoms; congruence.
+  unfold h_subscribe, sub_name_of. intros H.
+  set (r := if has_prefix s_new (m_topic m) || has_prefix s_nch (m_topic m) then ExpOk (s_grp ++ [o_fresh st]) else expand u m) in *.
+  assert (R : match r with ExpOk n => Some n | ExpErr _ => None end =
+              (if has_prefix s_new (m_topic m) || has_prefix s_nch (m_topic m) then Some (s_grp ++ [o_fresh st])
+               else match expand u m with ExpOk n => Some n | ExpErr _ => None end)).
+  { unfold r. destruct (has_prefix s_new (m_topic m) || has_prefix s_nch (m_topic m)); reflexivity. }
+  rewrite <- R. destruct r as [code|name] eqn:Er; [discriminate H|].
+  destruct (attached st name) eqn:A; [discriminate H|]. destruct (o_queue_full st) eqn:Q; [discriminate H|].
+  unfold hub_join in H. destruct (find_topic name (w_loaded st)) as [ti|] eqn:F.
+  - apply orb_true_iff. right. simpl.
+    destruct (t_inactive ti); [discriminate H|]. rewrite Q in H. unfold topic_reg in H. apply this_trigger in H. rewrite H. reflexivity.
+  - apply orb_true_iff. left. unfold topic_init in H.
+    destruct (has_prefix s_new (m_topic m) || has_prefix s_nch (m_topic m)) eqn:P.
+    + assert (Hn : name = s_grp ++ [o_fresh st]) by (unfold r in Er; congruence). subst name. rewrite F. explore H. all: fin. all: try congruence.
+    + explore H. all: atoms; congruence.
 Qed.
 
 Lemma set_trigger c st u m :
   state_wf st = true ->
   is_panic (h_set no_repairs c st u m) = true ->
-  m_attachments m && negb (media_configured c) && m_set_desc m && negb (o_reject st) && negb (o_queue_full st)
-  && match expand u m with ExpOk n => attached st n | ExpErr _ => false end = true.
+  negb (o_queue_full st)
+  && match expand u m with
+     | ExpOk n => attached st n
+                  && match find_topic n (w_loaded st) with
+                     | Some ti => (m_attachments m && negb (media_configured c) && m_set_desc m && negb (o_reject st))
+                                  || (m_set_sub m && set_sub_reaches st ti u m)
+                     | None => false
+                     end
+     | ExpErr _ => false
+     end = true.
 Proof.
-  intros Hwf. unfold h_set, topic_set. intros H.
+  intros Hwf. unfold h_set. intros H.
   destruct (expand u m) eqn:He; [discriminate H|].
   destruct (negb (m_set_desc m || m_set_sub m || m_set_tags m || m_set_cred m)); [discriminate H|].
   destruct (attached st name) eqn:A.
-  - explore H. fin.
+  - destruct (o_queue_full st); [discriminate H|]. destruct (find_topic name (w_loaded st)) as [ti|]; [|discriminate H].
+    simpl. unfold topic_set in H.
+    destruct (m_set_desc m && negb (o_reject st) && m_attachments m && negb (media_configured c) && negb (fix_media no_repairs)) eqn:M.
+    + simpl in M. rewrite andb_true_r in M. atoms. rw. reflexivity.
+    + destruct (m_set_sub m); [|discriminate H]. simpl.
+      destruct (reply_set_sub no_repairs st ti u m) eqn:R; try (destruct (m_set_desc m); discriminate H).
+      rewrite (set_sub_trigger st ti u m) by (rewrite R; reflexivity). apply orb_true_r.
   - destruct (m_set_tags m || m_set_cred m); [discriminate H|]. destruct (o_queue_full st); [discriminate H|].
     rewrite offline_set_sub_safe in H by auto. discriminate H.
 Qed.
@@ -390,8 +513,10 @@ Proof.
   - destruct (s_ver st =? 0) eqn:V; [discriminate H|]. simpl in H. unfold h_login in H. explore H.
   - destruct (s_ver st =? 0) eqn:V; [discriminate H|]. simpl in H.
     destruct (u =? 0) eqn:U; [discriminate H|].
-    apply sub_trigger in H. unfold trig_media, passes_checks, passes_front. fold u. rewrite K, O, Pt, V, U. simpl.
-    fin2.
+    apply sub_trigger in H. apply orb_prop in H as [H|H].
+    + unfold trig_media, passes_checks, passes_front. fold u. rewrite K, O, Pt, V, U. simpl. fin2.
+    + unfold trig_defacs, passes_checks, passes_front, sub_name, expanded. unfold sub_name_of in H. fold u. rewrite K, O, Pt, V, U. simpl.
+      simpl in H. rewrite H. rewrite ?orb_true_r. reflexivity.
   - destruct (s_ver st =? 0) eqn:V; [discriminate H|]. simpl in H.
     destruct (u =? 0) eqn:U; [discriminate H|]. unfold h_leave in H. explore H.
   - destruct (s_ver st =? 0) eqn:V; [discriminate H|]. simpl in H.
@@ -407,8 +532,10 @@ Proof.
     fin2.
   - destruct (s_ver st =? 0) eqn:V; [discriminate H|]. simpl in H.
     destruct (u =? 0) eqn:U; [discriminate H|].
-    apply set_trigger in H; auto. unfold trig_media, passes_checks, passes_front, expanded. fold u. rewrite K, O, Pt, V, U. simpl.
-    atoms. rw. simpl. destruct (expand u m); [discriminate|]. rw. rewrite ?orb_true_r; reflexivity.
+    apply set_trigger in H; auto. unfold trig_media, trig_defacs, passes_checks, passes_front, expanded. fold u. rewrite K, O, Pt, V, U. simpl.
+    atoms. rw. simpl. destruct (expand u m); [discriminate|]. atoms. rw. simpl.
+    destruct (find_topic name (w_loaded st)); [|discriminate].
+    match goal with H : _ || _ = true |- _ => apply orb_prop in H as [H|H] end; atoms; rw; simpl; rewrite ?orb_true_r; reflexivity.
   - destruct (s_ver st =? 0) eqn:V; [discriminate H|]. simpl in H.
     destruct (u =? 0) eqn:U; [discriminate H|].
     apply del_trigger in H. unfold trig_unreg, passes_checks, passes_front, expanded. fold u. rewrite K, O, Pt, V, U. simpl.
@@ -477,6 +604,39 @@ Section Leaves.
       destruct (valid_cat_ok _ (row_name_valid m name Hv)) as [c ->]. apply Qrep.
   Qed.
 
+  Lemma leaves_this_user_sub st ti u m : m_id m = id -> Q (this_user_sub all_repairs st ti u m) = true.
+  Proof.
+    intros <-. unfold this_user_sub. rewrite !after_access_for_repaired.
+    destruct (o_reject st); [apply Qrep|]. destruct (o_store_err st); [apply Qrep|].
+    destruct (find_pud u (t_peruser ti)) as [p|]; [destruct (pu_deleted p)|]; simpl.
+    - destruct (t_cat ti); try apply Qrep; destruct (is_channel (m_topic m)); apply Qrep.
+    - destruct (m_set_mode m); [apply Qrep|]. destruct (negb (pu_want_joiner p)); apply Qrep.
+    - destruct (t_cat ti); try apply Qrep; destruct (is_channel (m_topic m)); apply Qrep.
+  Qed.
+
+  Lemma leaves_another_user_sub st ti u tg m : m_id m = id -> Q (another_user_sub all_repairs st ti u tg m) = true.
+  Proof.
+    intros <-. unfold another_user_sub. rewrite !after_access_for_repaired.
+    destruct (find_pud u (t_peruser ti)) as [h|]; [|apply Qrep].
+    destruct (negb (pu_sharer h)); [apply Qrep|]. destruct (is_channel (m_topic m)); [apply Qrep|].
+    destruct (o_reject st); [apply Qrep|].
+    match goal with |- context [if ?c then _ else _] => destruct c end; destruct (o_store_err st); apply Qrep.
+  Qed.
+
+  Lemma leaves_reply_set_sub st ti u m : m_id m = id -> Q (reply_set_sub all_repairs st ti u m) = true.
+  Proof.
+    intros Hid. unfold reply_set_sub.
+    destruct (negb (is_empty (m_set_user m)) && (m_set_user_uid m =? 0)); [rewrite Hid; apply Qrep|].
+    match goal with |- context [if ?c then _ else _] => destruct c end; [now apply leaves_this_user_sub|now apply leaves_another_user_sub].
+  Qed.
+
+  Lemma leaves_topic_set c st ti u m : m_id m = id -> Q (topic_set all_repairs c st ti u m) = true.
+  Proof.
+    intros Hid. unfold topic_set. simpl. rewrite ?andb_false_r. destruct (m_set_sub m); [|rewrite Hid; apply Qrep].
+    pose proof (leaves_reply_set_sub st ti u m Hid) as HQ. pose proof (reply_set_sub_safe st ti u m) as HS.
+    destruct (reply_set_sub all_repairs st ti u m); [| |discriminate HS]; destruct (m_set_desc m); try exact HQ; rewrite Hid; apply Qrep.
+  Qed.
+
   Ltac leaves := repeat (simpl; rewrite ?andb_false_r;
                          match goal with
                          | |- context [if ?c then _ else _] => destruct c
@@ -499,7 +659,12 @@ Section Leaves.
     - unfold h_hello. rewrite Hid. leaves.
     - unfold h_acc. rewrite Hid. simpl. rewrite ?andb_false_r. leaves.
     - unfold h_login. rewrite Hid. leaves.
-    - unfold h_subscribe, hub_join, topic_init. rewrite Hid. simpl. rewrite ?andb_false_r. leaves.
+    - unfold h_subscribe. rewrite Hid.
+      destruct (if has_prefix s_new (m_topic m) || has_prefix s_nch (m_topic m) then ExpOk (s_grp ++ [o_fresh st]) else expand u m); [apply Qrep|].
+      destruct (attached st name); [apply Qrep|]. destruct (o_queue_full st) eqn:Qf; [apply Qrep|].
+      unfold hub_join. destruct (find_topic name (w_loaded st)) as [ti|].
+      + destruct (t_inactive ti); [rewrite Hid; apply Qrep|]. rewrite Qf. now apply leaves_this_user_sub.
+      + unfold topic_init. rewrite Hid. simpl. rewrite ?andb_false_r. leaves.
     - unfold h_leave. rewrite Hid. leaves.
     - pose proof (Hp eq_refl) as Hp'. rewrite Hid in Hp'. unfold h_publish, topic_pub. rewrite ?Hid. rewrite Hp'. simpl. rewrite ?andb_false_r. leaves.
     - unfold h_get. destruct (expand u m) eqn:He; rewrite ?Hid; [apply Qrep|].
@@ -514,7 +679,8 @@ Section Leaves.
     - unfold h_set. destruct (expand u m) eqn:He; rewrite ?Hid; [apply Qrep|].
       destruct (negb (m_set_desc m || m_set_sub m || m_set_tags m || m_set_cred m)); [apply Qrep|].
       destruct (attached st name).
-      + unfold topic_set. simpl. rewrite ?andb_false_r. rewrite Hid. leaves.
+      + destruct (o_queue_full st); [apply Qrep|]. destruct (find_topic name (w_loaded st)); [|apply Qrep].
+        now apply leaves_topic_set.
       + destruct (m_set_tags m || m_set_cred m); [apply Qrep|]. destruct (o_queue_full st); [apply Qrep|].
         now apply leaves_offline_set_sub.
     - unfold h_del. rewrite Hid. destruct (eqs (m_what m) s_user); [apply Qrep|].
@@ -572,3 +738,63 @@ Proof.
   - unfold h_set, expand. rewrite Hb. reflexivity.
   - unfold h_del, expand. apply andb_prop in Hb as [Hb1 Hb2]. apply negb_true_iff in Hb1. rewrite Hb1, Hb2. reflexivity.
 Qed.
+
+(* ---- histories: the state changes tracked for the default-access site keep the state well-formed ---- *)
+Lemma find_topic_valid name l ti :
+  forallb (fun t => topic_name_valid (t_name t)) l = true -> find_topic name l = Some ti -> topic_name_valid name = true.
+Proof.
+  unfold find_topic. induction l as [|t r IH]; intros Hl Hf; [discriminate Hf|]. fold find_topic in *.
+  cbn [forallb] in Hl. apply andb_prop in Hl as [Ht Hr].
+  destruct (eqs name (t_name t)) eqn:E.
+  - apply eqs_eq in E. subst name. exact Ht.
+  - apply IH; assumption.
+Qed.
+
+Lemma update_topic_valid name f l :
+  (forall t, t_name (f t) = t_name t) ->
+  forallb (fun t => topic_name_valid (t_name t)) l = true -> forallb (fun t => topic_name_valid (t_name t)) (update_topic name f l) = true.
+Proof.
+  intros Hf. induction l as [|t r IH]; intros Hl; [reflexivity|]. cbn [update_topic].
+  cbn [forallb] in Hl. apply andb_prop in Hl as [Ht Hr].
+  destruct (eqs name (t_name t)); cbn [forallb]; [rewrite Hf, Ht; exact Hr|rewrite Ht; exact (IH Hr)].
+Qed.
+
+Lemma remove_str_valid x l : forallb topic_name_valid l = true -> forallb topic_name_valid (remove_str x l) = true.
+Proof.
+  induction l as [|y r IH]; intros Hl; [reflexivity|]. cbn [remove_str]. cbn [forallb] in Hl. apply andb_prop in Hl as [Hy Hr].
+  destruct (eqs x y); [exact (IH Hr)|]. cbn [forallb]. rewrite Hy. exact (IH Hr).
+Qed.
+
+Lemma after_wf st m : state_wf st = true -> state_wf (after st m) = true.
+Proof.
+  intros Hwf. unfold after. destruct (expanded st m) as [n|]; [|exact Hwf].
+  destruct (find_topic n (w_loaded st)) as [ti|] eqn:F; [|exact Hwf].
+  pose proof Hwf as Hwf0. unfold state_wf in Hwf. apply andb_prop in Hwf as [Hwf Hs]. apply andb_prop in Hwf as [Hr Hl].
+  pose proof (find_topic_valid n _ ti Hl F) as Hn.
+  assert (Hupd : forall f, (forall t, t_name (f t) = t_name t) ->
+                 forallb (fun t => topic_name_valid (t_name t)) (update_topic n f (w_loaded st)) = true)
+    by (intros f Hf; apply update_topic_valid; assumption).
+  destruct (m_kind m); try exact Hwf0.
+  - destruct (attached st n); [exact Hwf0|]. unfold state_wf, with_subs_loaded. cbn [w_rows w_loaded s_subs].
+    rewrite Hr, Hupd by reflexivity. cbn [andb].
+    match goal with |- context [if ?c then _ else _] => destruct c end; [cbn [forallb]; rewrite Hn|]; exact Hs.
+  - destruct (attached st n); [|exact Hwf0]. cbn [andb]. destruct (m_unsub m);
+      unfold state_wf, with_subs_loaded; cbn [w_rows w_loaded s_subs]; rewrite Hr, ?Hl, ?Hupd by reflexivity; cbn [andb]; apply remove_str_valid; exact Hs.
+  - match goal with |- context [if ?c then _ else _] => destruct c end; [|exact Hwf0].
+    unfold state_wf, with_subs_loaded. cbn [w_rows w_loaded s_subs]. rewrite Hr, Hupd by reflexivity. cbn [andb].
+    destruct (m_set_joiner m); [exact Hs|apply remove_str_valid; exact Hs].
+Qed.
+
+Lemma run_safe c : forall ms st, state_wf st = true -> Forall (fun o => is_panic o = false) (run all_repairs c st ms).
+Proof.
+  induction ms as [|m r IH]; intros st Hwf; cbn [run]; constructor.
+  - apply handle_safe. exact Hwf.
+  - apply IH. apply after_wf. exact Hwf.
+Qed.
+
+(* getDefaultAccess as it is: total on the five categories; before /repo f52b053: the sys topic alone is missing *)
+Lemma default_access_total c a ch : exists x, get_default_access all_repairs c a ch = Some x.
+Proof. destruct c, a, ch; vm_compute; eexists; reflexivity. Qed.
+
+Lemma default_access_unrepaired c a ch : get_default_access no_repairs c a ch = None <-> (c = CatSys /\ a = true).
+Proof. destruct c, a, ch; vm_compute; split; try discriminate; try (intros [? ?]; discriminate); auto. Qed.
